@@ -124,11 +124,14 @@ RandomAccessIterator3 parallel_multiway_merge_base(
             total_size, comp, chunks.data(), num_threads);
     }
 
-#if defined(_OPENMP)
-#pragma omp parallel num_threads(num_threads)
-    {
-        size_t iam = omp_get_thread_num();
+    // Thread iam merges length[iam] elements to target + position[iam]. With
+    // sampling splitting a slab may begin behind the requested size; such a
+    // slab merges nothing.
+    std::vector<DiffType> position(num_threads), length(num_threads);
+    size_t last_active = 0;
 
+    for (size_t iam = 0; iam < num_threads; ++iam)
+    {
         DiffType target_position = 0, local_size = 0;
 
         for (size_t s = 0; s < num_seqs; ++s)
@@ -137,10 +140,26 @@ RandomAccessIterator3 parallel_multiway_merge_base(
             local_size += chunks[iam][s].second - chunks[iam][s].first;
         }
 
-        multiway_merge_base<Stable, false>(
-            chunks[iam].begin(), chunks[iam].end(), target + target_position,
-            std::min(local_size, static_cast<DiffType>(size) - target_position),
-            comp, mwma);
+        position[iam] = target_position;
+        length[iam] = std::max<DiffType>(
+            0, std::min(local_size,
+                        static_cast<DiffType>(size) - target_position));
+
+        if (length[iam] > 0)
+            last_active = iam;
+    }
+
+#if defined(_OPENMP)
+#pragma omp parallel num_threads(num_threads)
+    {
+        size_t iam = omp_get_thread_num();
+
+        if (length[iam] > 0)
+        {
+            multiway_merge_base<Stable, false>(
+                chunks[iam].begin(), chunks[iam].end(), target + position[iam],
+                length[iam], comp, mwma);
+        }
     }
 #else
     std::vector<std::thread> threads(num_threads);
@@ -148,20 +167,12 @@ RandomAccessIterator3 parallel_multiway_merge_base(
     for (size_t iam = 0; iam < num_threads; ++iam)
     {
         threads[iam] = std::thread([&, iam]() {
-            DiffType target_position = 0, local_size = 0;
-
-            for (size_t s = 0; s < num_seqs; ++s)
+            if (length[iam] > 0)
             {
-                target_position += chunks[iam][s].first - seqs_ne[s].first;
-                local_size += chunks[iam][s].second - chunks[iam][s].first;
+                multiway_merge_base<Stable, false>(
+                    chunks[iam].begin(), chunks[iam].end(),
+                    target + position[iam], length[iam], comp, mwma);
             }
-
-            multiway_merge_base<Stable, false>(
-                chunks[iam].begin(), chunks[iam].end(),
-                target + target_position,
-                std::min(local_size,
-                         static_cast<DiffType>(size) - target_position),
-                comp, mwma);
         });
     }
 
@@ -169,12 +180,13 @@ RandomAccessIterator3 parallel_multiway_merge_base(
         threads[i].join();
 #endif
 
-    // update ends of sequences
+    // update ends of sequences: the last slab that merged anything has
+    // advanced its chunk begins to the merged position
     size_t count_seqs = 0;
     for (RandomAccessIteratorIterator ii = seqs_begin; ii != seqs_end; ++ii)
     {
         if (ii->first != ii->second)
-            ii->first = chunks[num_threads - 1][count_seqs++].first;
+            ii->first = chunks[last_active][count_seqs++].first;
     }
 
     return target + size;
